@@ -852,7 +852,17 @@ def gen_document(rng, size=1, ns=NS_141, **opts):
     D['effects'] = [gen_effect(g, D['images']) for _ in range(rng.randint(0, hi))]
     D['materials'] = [{'id': g.fid('mat'), 'name': g.word() if g.chance(0.6) else None, 'effect': rng.choice(D['effects'])['id']}
                       for _ in range(rng.randint(0, hi) if D['effects'] else 0)]
-    D['animations'] = [gen_animation(g) for _ in range(rng.randint(1, hi))] if want_anim else []
+    D['animations'] = []
+    if want_anim:
+        # mostly two or more top-level animations; now and then a later one declares sources under the very ids
+        # an earlier sibling uses (ids are looked up per <animation>: each one must see its own)
+        D['animations'] = [gen_animation(g) for _ in range(max(rng.randint(1, hi), 2 if g.chance(0.6) else 1))]
+        first = next((a for a in D['animations'] if a['sources']), None)
+        if first is not None and g.chance(0.5):
+            for a in D['animations']:
+                if a is not first and a['sources'] and g.chance(0.7):
+                    for mine, theirs in zip(a['sources'], first['sources']):
+                        mine['id'] = theirs['id']
     D['geometries'] = [gen_geometry(g) for _ in range(rng.randint(0 if size == 0 else 1, hi))]
     D['controllers'] = []
     if want_ctl and D['geometries']:
